@@ -153,6 +153,7 @@ def tlc(spec_dir, module, cfg=None, env=None, workers=4, timeout=900, simulate=N
     p = subprocess.run(cmd, cwd=spec_dir, env=e, capture_output=True, text=True)
     r = TLCResult()
     r.wall = time.time() - t0
+    log('[tlc] %s %s: %.1fs' % (module, cfg or '', r.wall))
     r.out = p.stdout + p.stderr
     shutil.rmtree(meta, ignore_errors=True)
     for line in p.stdout.splitlines():
@@ -286,8 +287,9 @@ class Outcome:
     def violation(self, desc, replay_obj):
         REPLAYS.mkdir(parents=True, exist_ok=True)
         path = REPLAYS / ("%s_%d_%d.json" % (self.prop, os.getpid(), len(self.violations)))
-        with open(path, "w") as f:
-            json.dump({"property": self.prop, "what": desc, "replay": replay_obj}, f, indent=1)
+        if len(self.violations) < 25:
+            with open(path, "w") as f:
+                json.dump({"property": self.prop, "what": desc, "replay": replay_obj}, f, indent=1)
         self.violations.append((desc, str(path)))
 
     def finish(self):
@@ -322,7 +324,9 @@ class Outcome:
         EVID.mkdir(exist_ok=True)
         with open(EVID / (self.prop + ".json"), "w") as f:
             json.dump(ev, f, indent=1)
-        for desc, path in self.violations:
+        for desc, path in self.violations[:5]:
             print("VIOLATION property=%s replay=%s" % (self.prop, path))
-            log("  " + desc)
+            log("  " + desc[:600])
+        if len(self.violations) > 5:
+            log("  (+%d more violations; replay files under %s)" % (len(self.violations) - 5, REPLAYS))
         return 1 if self.violations else 0
